@@ -225,6 +225,56 @@ def stage_docstr(ctx: Ctx):
                        len(terms), [meta[i] for i in failed])
 
 
+HEADER_PROGS = [
+    'class c(a=1, *b[1:2]):  # old\n  pass\n', 'class c(*b[1:2], a=1):  # old\n  pass\n', 'class c(a={1: 2}, *b, **{3: 4}):\n  pass\n', 'class C[T: (int, str)](B[1:2], k=lambda: 0):  # old\n  pass\n',
+    'def f[T](a: int = {1: 2}, *b: x[1:2], c=lambda: 0) -> d[1:2]:  # old\n  pass\n', 'def g(a=lambda x: x):\n  pass\n', 'with a as b[1:2], c[3:4]:  # old\n  pass\n',
+    'with (a as b[1:2],\n      c):  # old\n  pass\n', 'for i[1:2] in j[3:4]:  # old\n  pass\nelse:  # else\n  pass\n', 'while a[1:2]:\n  pass\nelse:\n  pass\n',
+    'if a[1:2]:  # old\n  pass\nelif b[lambda: 0:2]:  # elif\n  pass\nelse:\n  pass\n', 'match a[1:2]:  # old\n  case {1: x, **r}:  # c1\n    pass\n  case [y] if z[1:2]:\n    pass\n',
+    'try:  # t\n  pass\nexcept E[1:2] as e:  # h\n  pass\nelse:  # e\n  pass\nfinally:  # f\n  pass\n', 'async def h(a: {1: 2}):\n  async with b[1:2]:\n    async for c in d[::2]:  # old\n      pass\n',
+    'if x: pass  # same line body\n', 'class K: pass\n', 'def k(): return {1: 2}  # c\n',
+]
+
+
+def stage_header_comments(ctx: Ctx):
+    """deterministic: the line comment of every block header whose expressions contain colons (slices, lambdas, dicts, annotations, keywords before starred bases):
+    put then get, for every clause field, structure unchanged, source re-parses to the tree, nothing but the comment changes"""
+    import fst
+    for src in HEADER_PROGS:
+        probe = fst.FST(src, 'exec')
+        for path in [probe.child_path(f) for f in probe.walk(True) if isinstance(f.a, (ast.stmt, ast.ExceptHandler, ast.match_case))]:
+            a0 = probe.child_from_path(path).a
+            fields = [None] + [fl for fl in ('orelse', 'finalbody') if getattr(a0, fl, None)]
+            for field in fields:
+                for text in ('new', None):
+                    root = fst.FST(src, 'exec')
+                    f = root.child_from_path(path)
+                    rec = {'src': src, 'stmt': repr(f), 'field': field, 'text': text}
+                    before = ast.dump(root.a)
+                    try:
+                        old = f.get_line_comment(field)
+                        f.put_line_comment(text, field)
+                        got = f.get_line_comment(field)
+                    except Exception as e:
+                        if root.src != src:
+                            ctx.violation('comment-refusal-dirty', 'put_line_comment raised and changed the source', {**rec, 'error': repr(e)})
+                        elif not isinstance(e, (ValueError, NotImplementedError, fst.NodeError)):
+                            ctx.violation(f'comment-crash|{type(e).__name__}', 'line comment accessor crashed', {**rec, 'error': repr(e)[:200]})
+                        continue
+                    ctx.tick(('hdr-cmt', src, str(path), field, text), 'comment:header')
+                    d = reparse_diffs(root)
+                    if got != text or ast.dump(root.a) != before or d:
+                        ctx.violation('comment-header', 'line comment put/get on a block header: wrong comment read back, structure changed or source no longer parses to the tree',
+                                      {**rec, 'old': old, 'got': got, 'after': root.src, 'diffs': d})
+                        continue
+                    # only comment text may differ
+                    import tokenize as _tk, io as _io
+                    code = lambda t: [x.string for x in _tk.generate_tokens(_io.StringIO(t).readline) if x.type not in (_tk.COMMENT, _tk.NL, _tk.NEWLINE, _tk.INDENT, _tk.DEDENT, _tk.ENDMARKER)]
+                    cm = lambda t: [x.string for x in _tk.generate_tokens(_io.StringIO(t).readline) if x.type == _tk.COMMENT]
+                    cb, ca = cm(src), cm(root.src)
+                    if code(src) != code(root.src) or abs(len(cb) - len(ca)) > 1 or sum(1 for x in cb if x not in ca) > 1:
+                        ctx.violation('comment-header-collateral', 'line comment put changed more than the addressed comment', {**rec, 'after': root.src})
+
+
 def stage_comments(ctx: Ctx, progs):
     import fst
     rng = ctx.rng
@@ -235,7 +285,7 @@ def stage_comments(ctx: Ctx, progs):
         if not stmts:
             continue
         f = rng.choice(stmts)
-        body = rand_text(rng, rng.randrange(1, 7)).replace('\n', '').replace('\r', '').replace('\x0c', '').replace('\x00', '').replace('\ud800', '').replace('\u2028', '').replace('\x85', '').replace('\x1f', '')
+        body = rand_text(rng, rng.randrange(1, 7)).replace('\n', '').replace('\x0c', '').replace('\x00', '').replace('\ud800', '').replace('\u2028', '').replace('\x85', '').replace('\x1f', '')
         body = body.strip() or 'c'
         full = rng.random() < 0.4
         text = ('  # ' + body + rng.choice(['', ' ', '  '])) if full else body
@@ -437,6 +487,7 @@ def run(ctx: Ctx):
     run_guarded(ctx, stage_docstr)
     progs = corpus(ctx.rng, gen=ctx.scale(20, 150))
     run_guarded(ctx, stage_comments, progs)
+    run_guarded(ctx, stage_header_comments)
     run_guarded(ctx, stage_roundtrip, progs)
 
 
